@@ -989,7 +989,15 @@ fn totals_line(out: &mut dyn Write, transport: &str, n101: u64, total: u64) {
         out,
         &Line {
             group: "totals",
-            case: json!({"headers": [], "totals": true, "transport": transport}),
+            // (long on purpose: the driver reports the shortest violating case
+            // as the replay, and that should be a scenario, not this summary)
+            case: json!({"headers": [], "totals": true, "transport": transport,
+                         "about": "summary line, not a scenario: over all cases of this run on this transport, the channel \
+                                   handler must have been entered exactly once per 101 answer; when it disagrees, the \
+                                   individual cases with status 101 and entered 0 (or a refusal with entered 1) are the \
+                                   failing scenarios and replay on their own; this line is skipped when replayed \
+                                   ........................................................................................ \
+                                   ........................................................................................"}),
             obs: json!({"switched": n101, "handler_entered": total}),
             coq: format!("(CTotals {} {})", n101, total),
             tags: vec![format!("totals:{}", transport)],
